@@ -393,11 +393,21 @@ class Ctx:
         self.extra = {}
         self.assumptions = []
         self.thorough = (tier == 'thorough')
+        self.model_unavailable = None
 
     def runner(self, area):
         if area not in self.runners:
             self.runners[area] = Runner(area)
         return self.runners[area]
+
+    def try_runner(self, area):
+        """the model runner, or None when the model cannot be built (the oracle pass then
+        still runs on the implementation alone; the broken model is reported by check.py)"""
+        try:
+            return self.runner(area)
+        except BuildError as exc:
+            self.model_unavailable = str(exc)[:2000]
+            return None
 
     def case(self, key=None, nontrivial=True, kind=None):
         self.evaluations += 1
